@@ -261,6 +261,15 @@ class Regions:
                 recs = [self.rec(g, rp, rs["e"], genv, depth + 1) for rs, rp in rets]
                 if any(not isinstance(r, dict) for r in recs):
                     return None
+                inner = set()
+                for b_, i_, s_ in g.all_stmts():
+                    for c_ in ir.calls_in(s_):
+                        if c_.get("fn") in MAP_FNS:
+                            inner.add(id(c_))
+                if inner:
+                    # a helper that maps: the mapping is identified by this
+                    # call of the helper, not by the call inside it
+                    recs = [self._rename(r, inner, id(e)) for r in recs]
                 if len(recs) == 1:
                     return recs[0]
                 out = {}
@@ -275,6 +284,17 @@ class Regions:
                         out[fld] = vals[0] if len(s) == 1 else ("choice", frozenset(s))
                 return out
         return None
+
+    def _rename(self, x, inner, outer):
+        if isinstance(x, dict):
+            return {k: (v if k.startswith("__") else self._rename(v, inner, outer)) for k, v in x.items()}
+        if isinstance(x, frozenset):
+            return frozenset(self._rename(y, inner, outer) for y in x)
+        if isinstance(x, tuple):
+            if len(x) == 3 and x[0] == "map" and x[1] in inner:
+                return ("map", outer, x[2])
+            return tuple(self._rename(y, inner, outer) for y in x)
+        return x
 
     def ptr(self, f, pos, e, env=None, depth=0):
         """The record a pointer expression points to."""
